@@ -389,6 +389,7 @@ func rawPart(s *stats, from, to int) (scripts int64) {
 // ---- main -----------------------------------------------------------------------
 
 func TestCheck(t *testing.T) {
+	vk.UseT(t)
 	r := vk.Start("C12", "model_checking", 150*time.Second, 24*time.Minute)
 	r.SetSampleCap(16)
 	s := newStats(r)
